@@ -44,6 +44,10 @@ verus! {
 //@verify evalcontext_new
 //@verify from_multiple_trees
 //@verify from_single_tree
+//@verify get_duplicates
+//@verify get_cache
+//@verify get_domain_raw_sets
+//@verify get_free_var_domains
 
 fn main() {}
 } // verus!
